@@ -17,7 +17,9 @@ PROOF_MODULES = ['OsloProofs.Props.C14']
 LEVEL = 'proof'
 RULE = ('per function, inputs built from its grammar: documented words x per-letter case x whitespace padding and '
         'one-edit near-misses; integers at min/max and +-1 in int and str form with sign, whitespace, underscores, '
-        'leading zeros, non-ASCII digits, floats, None/bytes/list/complex/bool; strings of length 0 and min/max +-1; '
+        'leading zeros, non-ASCII digits, Unicode confusables, floats, None/bytes/list/complex/bool; strings of length 0 and '
+        'min/max +-1 built from ASCII, whitespace and every Unicode unit family (base+combining marks, Hangul jamo, precomposed, '
+        'compatibility forms, length-changing case maps, astral, BMP/UTF-8 width extremes, ZWJ/VS sequences, invisibles); '
         'hex strings of length 30..34 in plain/hyphenated/braced/urn:uuid: spelling x letter case, generate_uuid '
         'output, plus a separate malformed/arbitrary-text stream over the character domain. A case is distinct by '
         '(function, value, settings) and non-trivial when the implementation accepts it (recognised word, int-like, '
@@ -61,6 +63,62 @@ DOMAIN = ASCII + [c for c in WS_CHARS if ord(c) >= 128] + ND_SAMPLE
 OUTSIDE = list('ＴＲＵＥｔｒｕｅİıſKÀéßΣσςǅǆＡａＦｆ①²٣൧Ⅷ') + [chr(0x10400), chr(0x1f600), chr(0x7f), chr(0xad), chr(0x200b),
                                                    chr(0xfeff), chr(0x180e)]
 HEXL, HEXU = '0123456789abcdef', '0123456789ABCDEF'
+# Unicode sequences for which "the same text" has several code-point counts or spellings: anything that
+# normalises (NFC/NFD/NFKC/NFKD), case-maps to another length, needs 1-4 UTF-8 bytes / 1-2 UTF-16 units, or is invisible.
+UNI_UNITS = [
+    'e\u0301', 'a\u0308', 'n\u0303', 'o\u0302\u0323', 'A\u030a', 'q\u0323\u0307', 'q\u0307\u0323',   # base + combining marks
+    '\u1112\u1161\u11ab', '\u1100\u1161', '\uac00\u11a8',                                           # conjoining Hangul jamo
+    '\u00e9', '\ud55c', '\u1e69', '\u00c5',                                                          # precomposed (NFD splits)
+    '\u0958', '\u0f43', '\u2adc', '\u0344', '\u2126', '\u212b', '\u2000', '\u0340',                    # exclusions / singletons
+    '\ufb01', '\u2460', '\u00b2', '\u2167', '\uff21', '\uff11', '\u017f', '\u1e9b\u0323', '\u00bd', '\u3392',  # compatibility (NFKC)
+    '\u00df', '\u0130', '\u0149', '\u01c5', '\u03a3', '\u1e9e', '\ufb03',                              # case maps changing length
+    '\U00010400', '\U0001f600', '\U0010ffff', '\U0001d7ce', '\U000e0041', '\U00010000', '\U0002f800',   # astral
+    '\x00', '\x7f', '\u0080', '\u07ff', '\u0800', '\ud7ff', '\ue000', '\ufffd', '\ufffe', '\uffff',       # BMP / UTF-8 width extremes
+    '\U0001f468\u200d\U0001f469\u200d\U0001f467', '\u2764\ufe0f', '\U0001f1e9\U0001f1ea', '\u0e01\u0e33',   # ZWJ, VS, flags, Thai
+    '\u200b', '\ufeff', '\u00ad', '\u200e', '\u202e', '\u034f', '\u2060', '\u180e', '\u0301',             # invisible / lone mark
+]
+UNI_CHARS = sorted(set(c for u in UNI_UNITS for c in u))
+
+
+def uni_text(rng, ln, unit=None):
+    """exactly `ln` code points: one unit repeated (cut to length), or a random mixture of units"""
+    if ln <= 0:
+        return ''
+    out = []
+    while len(out) < ln:
+        out.extend(unit if unit is not None else rng.choice(UNI_UNITS))
+    return ''.join(out[:ln])
+
+
+def fullwidth(w):
+    return ''.join(chr(ord(c) + 0xfee0) if 0x21 <= ord(c) <= 0x7e else c for c in w)
+
+
+def mathbold(w):
+    out = []
+    for c in w:
+        if 'a' <= c <= 'z':
+            out.append(chr(0x1d41a + ord(c) - 97))
+        elif 'A' <= c <= 'Z':
+            out.append(chr(0x1d400 + ord(c) - 65))
+        elif '0' <= c <= '9':
+            out.append(chr(0x1d7ce + ord(c) - 48))
+        else:
+            out.append(c)
+    return ''.join(out)
+
+
+INVISIBLE = ['\u200b', '\ufeff', '\u00ad', '\u2060', '\u180e', '\u200e', '\u034f', '\x00', '\x7f']
+MARKS = ['\u0301', '\u0308', '\u0323', '\u20dd', '\ufe0f']
+
+
+def confusables(rng, w):
+    """spellings that are *not* the text `w` but that a normalising / folding implementation would equate with it"""
+    i = rng.randrange(len(w) + 1) if w else 0
+    inv, mk = rng.choice(INVISIBLE), rng.choice(MARKS)
+    return [fullwidth(w), mathbold(w), w + mk, w[:i] + mk + w[i:] if i else mk + w, inv + w, w + inv,
+            w[:i] + inv + w[i:], w.replace('-', rng.choice(['\u2010', '\u2212', '\uff0d', '\u2011'])) if '-' in w else w + '\u2010',
+            unicodedata.normalize('NFD', w) if unicodedata.normalize('NFD', w) != w else '\u2002' + w + '\u200b']
 CHUNK = 4000
 
 
@@ -318,6 +376,11 @@ def gen_bool_values(rng, n, alphabet):
             out.append((vstr(w + ws), 'word-rpad-each-ws'))
     for v in other_values(rng) + [vint(k) for k in (0, 1, 2, -1, 10, 11)]:
         out.append((v, 'nonstr/' + v['t']))
+    if len(alphabet) > len(DOMAIN):                   # search only: str.lower() of these is outside the model's domain
+        for w in words:
+            for c in confusables(rng, w) + confusables(rng, w.upper()):
+                out.append((vstr(c), 'confusable'))
+                out.append((vstr(rng.choice(WS_CHARS) + c + rng.choice(WS_CHARS)), 'confusable'))
     lim = sys.get_int_max_str_digits()
     if lim > 0:                                       # str(int) at the conversion limit (known finding C14-F2)
         out.append((V('int', '1', zeros=lim - 1), 'limit/int/+0'))
@@ -391,6 +454,8 @@ def gen_int_values(rng, centre):
         out.append((vint(n), 'int'))
         for k in INT_KINDS:
             out.append((vstr(decorate_int(rng, n, k)), 'str/' + k))
+        for c in rng.sample(confusables(rng, text_of_int(n)), 3):     # int() is modelled on every character
+            out.append((vstr(c), 'str/confusable'))
         if abs(n) < 2 ** 53:
             out.append((V('float', repr(float(n))), 'float'))
     return out
@@ -478,12 +543,24 @@ def gen_strlen(rng, n, alphabet):
             for ln in sorted(lens):
                 pool = rng.choice([['a'], alphabet, WS_CHARS + ['x'], OUTSIDE + ['z']])
                 out.append((vstr(''.join(rng.choice(pool) for _ in range(ln))), lo, hi, 'len-at-bound'))
+                out.append((vstr(uni_text(rng, ln, rng.choice([None, rng.choice(UNI_UNITS)]))), lo, hi,
+                            'len-at-bound/unicode'))
+    # every unit (decomposed, jamo, precomposed, compatibility, astral, BMP extremes, invisible) at a bound and +-1
+    sweep_bounds = [1, 2, 3, 255] if n < 50000 else [1, 2, 3, 4, 5, 10, 16, 64, 255, 256]
+    for unit in UNI_UNITS:
+        for b in sweep_bounds:
+            for ln in (b - 1, b, b + 1):
+                for lo, hi in ((b, None), (0, b), (b, b)):
+                    out.append((vstr(uni_text(rng, ln, unit)), lo, hi, 'len-at-bound/unit'))
     for v in other_values(rng) + [vint(3), vint(0)]:
         out.append((v, rng.choice(mins), rng.choice(maxs), 'nonstr/' + v['t']))
     while len(out) < n:
         lo, hi = rng.choice(mins), rng.choice(maxs + [rng.randrange(0, 40)])
         ln = max(0, rng.choice([lo, hi if hi is not None else lo, rng.randrange(0, 40)]) + rng.randrange(-2, 3))
-        out.append((vstr(''.join(rng.choice(alphabet) for _ in range(ln))), lo, hi, 'random'))
+        if rng.random() < 0.5:
+            out.append((vstr(''.join(rng.choice(alphabet) for _ in range(ln))), lo, hi, 'random'))
+        else:
+            out.append((vstr(uni_text(rng, ln)), lo, hi, 'random/unicode'))
     return out
 
 
@@ -532,6 +609,11 @@ def gen_uuid(rng, n, alphabet):
         out.append((vstr(s), 'odd'))
     for v in other_values(rng) + [vint(int(h, 16)), vint(0)]:
         out.append((v, 'nonstr/' + v['t']))
+    if len(alphabet) > len(DOMAIN):                   # search only (str.lower() outside the model's domain)
+        for dname, dec in sorted(DECORATIONS.items()):
+            for case in ('lower', 'upper'):
+                for c in confusables(rng, dec(hex_string(rng, 32, case))):
+                    out.append((vstr(c), 'confusable/' + dname))
     pieces = ['urn:', 'uuid:', '{', '}', '-', 'u', 'ur', 'uu', 'uui', 'uuid', 'urn', ':', 'rn:', 'id:']
     while len(out) < n:
         r = rng.random()
@@ -611,7 +693,7 @@ def gen_cases(ctx, alphabet):
 
 
 ACCEPT = {'bool': ('val:1', 'val:0'), 'boolstr': ('1',), 'intbool': ('1',), 'intlike': ('1',), 'uuid': ('1',)}
-NEAR_TAGS = ('near', 'bound', 'len-at-bound', 'word', 'limit', 'one-bad-char', 'scattered', 'odd', 'len3', 'str/', 'fixed')
+NEAR_TAGS = ('near', 'bound', 'len-at-bound', 'word', 'limit', 'one-bad-char', 'scattered', 'odd', 'len3', 'str/', 'fixed', 'confusable')
 
 
 def is_nontrivial(case, tag, impl):
@@ -826,7 +908,7 @@ def search(ctx, seeds, full=False):
     fails = []
     seen_kinds = {}
     todo = [(s, 'seed') for s in seeds[:300] if isinstance(s, dict) and 'fn' in s]
-    cases = gen_cases(ctx, DOMAIN + OUTSIDE)
+    cases = gen_cases(ctx, DOMAIN + OUTSIDE + UNI_CHARS)
     if not full:                      # small budget when nothing broke
         cases = cases[::3]
     todo += cases
